@@ -174,6 +174,7 @@ pub fn gen_server(rng: &mut Rng, id: usize) -> Vec<String> {
         }
     }
     // truncated or endless heads
+    let mut boundary_script: Option<String> = None;
     match rng.below(16) {
         0 => {
             let n = rng.below(bytes.len());
@@ -182,6 +183,23 @@ pub fn gen_server(rng: &mut Rng, id: usize) -> Vec<String> {
         1 => {
             bytes = b"GET / HTTP/1.1\r\nX: ".to_vec();
             bytes.extend(std::iter::repeat(b'a').take(70000));
+            // reads at the boundary of the small-packet rule: 128-byte reads never trip it,
+            // 127-byte reads trip it at the 65th read, a mix decides by the average
+            if rng.chance(1, 2) {
+                let rd: Vec<String> = (0..rng.range(60, 90))
+                    .map(|i| match rng.below(3) {
+                        0 => "d128".to_string(),
+                        1 => "d127".to_string(),
+                        _ => if i % 2 == 0 { "d129".to_string() } else { "d127".to_string() },
+                    })
+                    .collect();
+                boundary_script = Some(format!(
+                    "script rd={} rddef=d{} wr=- wrdef=a{} fl=- fldef=o",
+                    rd.join(","),
+                    *rng.pick(&[127usize, 128, 4096]),
+                    1usize << 40
+                ));
+            }
         }
         _ => {}
     }
@@ -190,7 +208,9 @@ pub fn gen_server(rng: &mut Rng, id: usize) -> Vec<String> {
         bytes.extend(enc_frame(true, 0, 1, Some(rng.mask()), b"hi", LenForm::Minimal));
     }
     lines.push(format!("peer {}", hex(&bytes)));
-    if rng.chance(2, 3) {
+    if let Some(b) = boundary_script {
+        lines.push(b);
+    } else if rng.chance(2, 3) {
         lines.push(scripts(rng, bytes.len()));
     }
     lines.push("op accept m=-".into());
